@@ -48,7 +48,10 @@ def gen_input(rng):
     feats = []
     while not feats:
         feats = G.gtf_annotation(rng, {"max_genes": 2, "shuffle": rng.random() < 0.3})
-    return {"fmt": "gtf", "feats": feats}
+    # the importer's documented options for GTF: either inference may be switched off
+    kw = rng.choice([{}, {}, {"disable_infer_genes": True}, {"disable_infer_transcripts": True},
+                     {"disable_infer_genes": True, "disable_infer_transcripts": True}])
+    return {"fmt": "gtf", "feats": feats, "kw": kw}
 
 
 def gen(rng, tier):
@@ -57,7 +60,7 @@ def gen(rng, tier):
     k = rng.choice([2, 2, 3, 3, 4, 5, 8])
     nodes = []
     for i in range(k):
-        nodes.append({"input": rng.randrange(n_inputs), "form": rng.choice(["path", "path", "string"]),
+        nodes.append({"input": rng.randrange(n_inputs), "form": rng.choice(["path", "path", "string", "gz"]),
                       "delay": rng.choice([0, 0, 0, 1, 3, 8])})
     fault = None
     r = rng.random()
@@ -106,8 +109,10 @@ def _db(i):
 
 def _req(case, i, nd):
     inp = case["inputs"][nd["input"]]
-    data = {"form": nd["form"], "text": _text(inp), "name": "in%d_%d.%s" % (nd["input"], i, inp["fmt"])}
-    return {"op": "create", "h": "h", "db": _db(i), "data": data, "kw": {"merge_strategy": "create_unique"}, "want_log": True}
+    # every importer reads <its own directory>/genes.<fmt>[.gz]: separate input files that share a basename
+    data = {"form": nd["form"], "text": _text(inp), "name": "s%d/genes.%s" % (i, inp["fmt"])}
+    return {"op": "create", "h": "h", "db": _db(i), "data": data, "kw": dict(inp.get("kw") or {}, merge_strategy="create_unique"),
+            "want_log": True}
 
 
 def _upd_req(case, i):
@@ -117,7 +122,9 @@ def _upd_req(case, i):
     fmt = case["inputs"][case["nodes"][i]["input"]]["fmt"]
     d = G.DEFAULT_GFF3 if fmt == "gff3" else G.DEFAULT_GTF
     spec = G.source_spec(None, u["feats"], form=u["form"], d=d, name="upd%d.%s" % (i, fmt))
-    return {"op": "update", "h": "h", "data": spec, "kw": {"merge_strategy": "create_unique", "make_backup": False}, "want_log": True}
+    return {"op": "update", "h": "h", "data": spec,
+            "kw": dict(case["inputs"][case["nodes"][i]["input"]].get("kw") or {}, merge_strategy="create_unique", make_backup=False),
+            "want_log": True}
 
 
 def _names(case, i):
